@@ -350,6 +350,21 @@ def solveTableauSeen (tol : Tol α) (skipAux : Bool) :
         if pr.1 then solveTableauSeen tol skipAux fuel (pivot T c pr.2) (b.set pr.2 c) (b :: seen)
         else (3, seen.length, false)
 
+/-- number of pivots of a `solveTableau` run whose pivot row is lexicographically negative at
+    that moment (attack / statistics tool) -/
+def countNegRowPivots (tol : Tol α) (skipAux : Bool) : Nat → M α → List Nat → Nat
+  | 0, _, _ => 0
+  | fuel + 1, T, b =>
+    match pivotCol T skipAux tol.fea with
+    | none => 0
+    | some c =>
+      let pr := lexMinRatio (dropLast T) c (T.nc - (T.nr - 1) - 1) tol.piv tol.diff
+      if pr.1 then
+        let neg := !(lexPosB (fun col => T.get pr.2 col)
+          (lexCols (T.nr - 1) (T.nc - 1) (T.nc - (T.nr - 1) - 1)))
+        (if neg then 1 else 0) + countNegRowPivots tol skipAux fuel (pivot T c pr.2) (b.set pr.2 c)
+      else 0
+
 /-- Phase 1, clean-up (counting pivots on negative elements), then Phase 2 with cycle detection:
     `(status, phase-2 pivots, cycled, lexStartOK, clean-up pivots, negative clean-up pivots)` -/
 def lpCycle (P : LP α) (maxIter : Nat) (tol : Tol α) : Nat × Nat × Bool × Bool × Nat × Nat :=
@@ -445,8 +460,11 @@ def handleSc (sc : Sc β) (toks : List String) : String :=
           && beq.length == k then
         let P : LP β := ⟨n, m, k, fnOfList c, fnOfMat Aub, fnOfList bub, fnOfMat Aeq, fnOfList beq⟩
         let (st, piv, cyc, ok, cl, neg) := lpCycle P mi tol
+        let r1 := solvePhase1 tol mi (initTableau P) (initBasis P)
+        let negpiv := if r1.status ≠ 0 then 0 else
+          countNegRowPivots tol true (min mi 5000) (setCriterionRow P.c P.n r1.basis r1.T) r1.basis
         s!"st={st} pivots={piv} cycled={showBool cyc} lexok={showBool ok} cleanup={cl} negcleanup={neg}" ++
-        s!" lexstart={showBool (lexStartOK P mi tol)}"
+        s!" lexstart={showBool (lexStartOK P mi tol)} negrowpivots={negpiv}"
       else "bad-op"
     | _, _, _, _, _, _, _, _, _, _ => "bad-op"
   | "tabcycle" :: r =>
